@@ -8,6 +8,7 @@ R3.4 the validity oracle itself: is_valid_python answers True only after a succe
 from __future__ import annotations
 
 import ast
+import re
 from typing import Dict, List, Optional, Tuple
 
 from ..defuse import assignments, call_arg, is_reassigned
@@ -178,7 +179,8 @@ def check(prog: Program, tier: str) -> Result:
             "text changed and the new text is valid or the old one was invalid (directly, or through the "
             "interprocedural safe-text summary 'returns its argument or a validated text'); (R3.4) the validity oracle "
             "returns True only after ast.parse of its argument succeeded. R3.3 enumerates which pipeline stages have the "
-            "safe-text summary and which are direct editors (reported, not judged). Not decided: that direct editors "
+            "safe-text summary and which are direct editors (reported, not judged). (R3.5) position-based splices applied in a loop "
+            "to the text they were computed for run back to front (descending sort by the position the splice uses). Not decided: that direct editors "
             "and layout stages produce parsable text (a runtime property of text)."),
         rule_text=("instances = return statements of the anchor back-ends, write sites of the file entry points, return "
                    "statements of is_valid_python, calls of rule functions in the pipeline; an instance is non-trivial "
@@ -280,9 +282,89 @@ def check(prog: Program, tier: str) -> Result:
         for site, written in sites:
             _write_obligation(res, prog, st, fn, pa, site, written)
     res.floors["R3.2"] = 2
+    _r3_5(prog, res)
     res.analysed.update({"anchor_functions": [f.fq for f in anchors], "pipeline_stages": len(pipeline_fns),
                          "safe_text_summaries": {f"{k[0]}.{k[1]}": v for k, v in sorted(st.summary.items())}})
     return res
+
+
+def _r3_5(prog: Program, res: Result) -> None:
+    """Position-based splices applied in a loop to the text they were computed for must run back to front: every splice
+    changes the length of the text, so after a splice all positions behind it are stale; only positions in front of it
+    stay valid.  Instance: `T = T[:a] + x + T[b:]` (also on a list of lines) inside a `for` loop whose target supplies
+    a / b; obligation: the loop iterates `sorted(.., reverse=True)` (or reversed(sorted(..))) and, if a key is given,
+    the key orders by the position the splice uses."""
+    from ..defuse import bindings
+    from ..model import ancestors
+    n = 0
+    for fn in prog.funcs.values():
+        for a in walk_own(fn.node):
+            if not (isinstance(a, ast.Assign) and len(a.targets) == 1 and isinstance(a.targets[0], ast.Name) and isinstance(a.value, ast.BinOp)):
+                continue
+            t = a.targets[0].id
+            sl = [x for x in ast.walk(a.value) if isinstance(x, ast.Subscript) and isinstance(x.value, ast.Name) and x.value.id == t and isinstance(x.slice, ast.Slice)]
+            if len(sl) < 2:
+                continue
+            loop = next((l for l in ancestors(a) if isinstance(l, (ast.For, ast.While)) and l is not a), None)
+            if loop is None:
+                continue
+            text = short(a, 90)
+            if isinstance(loop, ast.While):
+                res.undecided("R3.5", fn.loc(a), fn.fq, text, "splice inside a while loop: order of application not recognised")
+                continue
+            tnames = {x.id for x in ast.walk(loop.target) if isinstance(x, ast.Name)}
+            bounds = [b for s_ in sl for b in (s_.slice.lower, s_.slice.upper) if b is not None]
+            if not any(tnames & {x.id for x in ast.walk(b) if isinstance(x, ast.Name)} for b in bounds):
+                continue    # positions do not come from the loop target: not a sequence of precomputed splices
+            n += 1
+            it = loop.iter
+            if isinstance(it, ast.Name):
+                defs = [v for (_s, v) in bindings(fn).get(it.id, []) if v is not None]
+                it = defs[0] if len(defs) == 1 else it
+            desc = None    # True descending / False ascending / None unknown
+            key = None
+            if isinstance(it, ast.Call) and isinstance(it.func, ast.Name) and it.func.id == "sorted":
+                rev = next((k.value for k in it.keywords if k.arg == "reverse"), None)
+                key = next((k.value for k in it.keywords if k.arg == "key"), None)
+                desc = isinstance(rev, ast.Constant) and rev.value is True
+                if rev is not None and not isinstance(rev, ast.Constant):
+                    desc = None
+            elif isinstance(it, ast.Call) and isinstance(it.func, ast.Name) and it.func.id == "reversed" and it.args \
+                    and isinstance(it.args[0], ast.Call) and isinstance(it.args[0].func, ast.Name) and it.args[0].func.id == "sorted":
+                inner = it.args[0]
+                rev = next((k.value for k in inner.keywords if k.arg == "reverse"), None)
+                key = next((k.value for k in inner.keywords if k.arg == "key"), None)
+                desc = rev is None or (isinstance(rev, ast.Constant) and rev.value is False)
+            if desc is None:
+                res.undecided("R3.5", fn.loc(a), fn.fq, text, f"order of `{short(loop.iter, 60)}` not recognised")
+                continue
+            key_ok = True
+            why_key = ""
+            if desc and key is not None:
+                key_ok = False
+                if isinstance(key, ast.Lambda) and len(key.args.args) == 1:
+                    p = key.args.args[0].arg
+                    primary = key.body.elts[0] if isinstance(key.body, ast.Tuple) and key.body.elts else key.body
+                    ptxt = norm(primary)
+                    if isinstance(loop.target, ast.Name):
+                        want = re.sub(rf"\b{re.escape(p)}\b", loop.target.id, ptxt)
+                        key_ok = any(want in norm(b) for b in bounds)
+                    elif isinstance(loop.target, ast.Tuple):
+                        # key on t[0] / t[:k] with the first target component used as a bound
+                        first = loop.target.elts[0]
+                        key_ok = ptxt in (f"{p}[0]", p) or ptxt.startswith(f"{p}[:")
+                        key_ok = key_ok and isinstance(first, ast.Name) and any(first.id in {x.id for x in ast.walk(b) if isinstance(x, ast.Name)} for b in bounds)
+                    why_key = f"key `{short(key, 50)}`"
+                else:
+                    res.undecided("R3.5", fn.loc(a), fn.fq, text, f"sort key `{short(key, 50)}` not analysable")
+                    continue
+            ok = bool(desc) and key_ok
+            res.decide(ok, "R3.5", fn.loc(a), fn.fq, text,
+                       f"applied back to front ({short(loop.iter, 60)})" if ok else
+                       (f"the splices are applied in ascending order ({short(loop.iter, 70)}): after the first one that changes the length, "
+                        "all later positions are stale and the text is cut in the wrong places" if not desc else
+                        f"descending, but by {why_key}, which is not the position the splice uses"))
+    res.floors["R3.5"] = 1
 
 
 def _dominated_by_parse(prog: Program, fn: Func, ret: ast.Return, param: Optional[str]) -> Tuple[bool, str]:
@@ -482,6 +564,12 @@ def _sub_summary(prog: Program, st: SafeText) -> str:
 from ..selftest import Variant  # noqa: E402
 
 VARIANTS = [
+    Variant("insertions-applied-top-down", "FIRE", "processing",
+            "    for node in sorted(additions, key=lambda n: n.lineno, reverse=True):", "    for node in sorted(additions, key=lambda n: n.lineno):", "R3.5"),
+    Variant("import-spacing-applied-top-down", "FIRE", "fixes",
+            "    for replacement_range in sorted(replacements, reverse=True):", "    for replacement_range in sorted(replacements):", "R3.5"),
+    Variant("import-spacing-reversed-sorted", "SILENT", "fixes",
+            "    for replacement_range in sorted(replacements, reverse=True):", "    for replacement_range in reversed(sorted(replacements)):"),
     # dropping only the *first* test of _apply_rewrites keeps C03 (the second test still guards the return); it
     # exposes core.parse to an unparsable text instead, which is a crash (C04 R4.h), so that variant lives in c04.py.
     Variant("drop-second-validity-test", "FIRE", "processing",
@@ -527,7 +615,7 @@ VARIANTS = [
 
 META = {
     "design_ref": "DESIGN.md section 3, C03",
-    "technique": "path-condition must-analysis (rollback dominance, write guard) + interprocedural safe-text summary",
+    "technique": "path-condition must-analysis (rollback dominance, write guard) + interprocedural safe-text summary + application-order check of in-loop text splices",
     "level_text": ("Decides on the current source that the scheduled rewrite back-ends (_apply_rewrites, _replace_nodes, "
                    "fix_import_spacing, the fix/chain wrappers) can only return their input or a text that passed "
                    "core.is_valid_python, that file writes are guarded by changed-and-(valid-or-was-invalid), and that "
